@@ -89,6 +89,8 @@ class Stats:
         if out.keys:
             self.nontrivial.update(out.keys)
         for f in (out.failures or []):
+            if f.case is None:
+                f.case = case
             self.failures.append(f)
         if out.nontrivial:
             self.nontrivial.add(h64(out.key if out.key is not None else case))
@@ -271,8 +273,11 @@ class Runner:
                 out = Outcome(failure=Failure("harness-exception", traceback.format_exc()))
             if out.failure is None:
                 return None
-            last = out.failure
-        last.case = failure.case
+            cands = [out.failure] + list(out.failures or [])
+            same = [c for c in cands if c.sig == failure.sig]
+            last = same[0] if same else out.failure
+        if last.case is None:
+            last.case = failure.case
         return last
 
     def finish(self):
@@ -311,7 +316,11 @@ class Runner:
             if c.sig in open_keys:
                 self.stats.excluded[c.sig] += 1
                 continue
+            if c.sig in seen_sigs:
+                self.stats.extra["further_failures_same_signature"] += 1
+                continue
             seen_sigs.add(c.sig)
+            seen_sigs.add(f.sig)
             path = self.write_replay(c)
             self.violations.append((c, path))
         for c, path in self.violations[:10]:
